@@ -227,7 +227,9 @@ func (e *Enc) builtin(x *ssa.Call, b *ssa.Builtin, st *State) {
 	}
 }
 
-// appendOp: allocate a fresh backing array, copy, extend (DESIGN 2.2).
+// appendOp models append exactly: if the new length fits the capacity the elements are
+// written in place into the argument's backing array (a frame-checked write), otherwise a
+// fresh backing array is allocated, the old elements copied and the new ones added.
 func (e *Enc) appendOp(x *ssa.Call, st *State) {
 	args := x.Call.Args
 	s := e.term(args[0])
@@ -236,33 +238,49 @@ func (e *Enc) appendOp(x *ssa.Call, st *State) {
 	name := elemHeapName(el)
 	srt := arrSort(arrSort(es))
 	sl := Term{app("Slice_len", s.S), sInt}
-	// second argument: a slice (possibly of a fresh one-element varargs array)
-	var t Term
 	if isString(args[1].Type()) {
 		panic(unsupported{"append of string bytes"})
 	}
-	t = e.term(args[1])
+	t := e.term(args[1])
 	tl := Term{app("Slice_len", t.S), sInt}
 	h := st.heapGet(e, name, srt)
+	sarr := Term{app("Slice_arr", s.S), sInt}
+	soff := Term{app("Slice_off", s.S), sInt}
+	scap := Term{app("Slice_cap", s.S), sInt}
+	newLen := e.def("applen", Term{app("+", sl.S, tl.S), sInt})
+	fits := e.def("appfits", tAnd(tNot(tEq(sarr, tInt(0))), Term{app("<=", newLen.S, scap.S), sBool}))
+	oldArr := tSelect(h, sarr)
+	srcArr := tSelect(h, Term{app("Slice_arr", t.S), sInt})
+	// frame: an in-place append writes the argument's backing array
+	if e.fc != nil {
+		cond := tOr(tNot(fits), tEq(tl, tInt(0)), e.allowedWrite(name, sarr, nil))
+		if cond.S != "true" {
+			label := e.p.srcLine(x.Pos())
+			e.oblige("frame", "append in place: "+label, e.fc.frameTags(), cond, x.Pos())
+		}
+	}
+	// in-place contents
+	inpl := e.havoc("appinplace", arrSort(es))
+	qa := e.freshName("q_j")
+	lo := Term{app("+", soff.S, sl.S), sInt}
+	e.assume(Term{fmt.Sprintf("(forall ((%s Int)) (! (= (select %s %s) (ite (and (<= %s %s) (< %s (+ %s %s))) (select %s (sidx (Slice_off %s) (- %s %s))) (select %s %s))) :pattern ((select %s %s))))",
+		qa, inpl.S, qa, lo.S, qa, qa, lo.S, tl.S, srcArr.S, t.S, qa, lo.S, oldArr.S, qa, inpl.S, qa), sBool})
+	e.assume(tImp(tEq(tl, tInt(1)), tEq(inpl, tStore(oldArr, lo, tSelect(srcArr, Term{app("Slice_off", t.S), sInt})))))
+	// fresh-array contents
 	r := e.def("apparr", st.alloc)
 	st.alloc = e.def("alloc", Term{app("+", st.alloc.S, "1"), sInt})
 	na := e.havoc("appcontents", arrSort(es))
-	newLen := e.def("applen", Term{app("+", sl.S, tl.S), sInt})
 	nc := e.havoc("appcap", sInt)
-	e.assume(Term{app(">=", nc.S, newLen.S), sBool})
-	// contents
+	e.assume(tAnd(Term{app(">=", nc.S, newLen.S), sBool}, Term{app("<=", nc.S, "72057594037927936"), sBool}))
 	q := e.freshName("q_i")
-	oldArr := tSelect(h, Term{app("Slice_arr", s.S), sInt})
-	srcArr := tSelect(h, Term{app("Slice_arr", t.S), sInt})
 	e.assume(Term{fmt.Sprintf("(forall ((%s Int)) (! (=> (and (<= 0 %s) (< %s %s)) (= (select %s %s) (select %s (sidx (Slice_off %s) %s)))) :pattern ((select %s %s))))",
 		q, q, q, sl.S, na.S, q, oldArr.S, s.S, q, na.S, q), sBool})
 	q2 := e.freshName("q_i")
 	e.assume(Term{fmt.Sprintf("(forall ((%s Int)) (! (=> (and (<= 0 %s) (< %s %s)) (= (select %s (+ %s %s)) (select %s (sidx (Slice_off %s) %s)))) :pattern ((select %s (sidx (Slice_off %s) %s)))))",
 		q2, q2, q2, tl.S, na.S, sl.S, q2, srcArr.S, t.S, q2, srcArr.S, t.S, q2), sBool})
-	// the common one-element case, stated without a quantifier as well
 	e.assume(tImp(tEq(tl, tInt(1)), tEq(tSelect(na, sl), tSelect(srcArr, Term{app("Slice_off", t.S), sInt}))))
-	st.heap[name] = e.def(name, tStore(h, r, na))
-	e.setVal(x, Term{app("mk_Slice", r.S, "0", newLen.S, nc.S), sSlice})
+	st.heap[name] = e.def(name, tIte(fits, tStore(h, sarr, inpl), tStore(h, r, na)))
+	e.setVal(x, tIte(fits, Term{app("mk_Slice", sarr.S, soff.S, newLen.S, scap.S), sSlice}, Term{app("mk_Slice", r.S, "0", newLen.S, nc.S), sSlice}))
 }
 
 func (e *Enc) copyOp(x *ssa.Call, st *State) {
